@@ -23,10 +23,10 @@ type c18Scenario struct {
 	FailAt     int        `json:"fail_keepalive_k,omitempty"`
 	OnTick     bool       `json:"end_on_a_tick,omitempty"`
 	RefuseDial bool       `json:"reconnection_refused,omitempty"`
-	PeerDrops  bool       `json:"peer_drops_when_keepalive_fails,omitempty"` // the read side notices the loss while the keepalive is closing the transport
-	UnstallMs  int        `json:"peer_reads_again_after_ms,omitempty"` // with peer_stops_reading: the peer reads again this long after it closed the stream (0: never)
+	PeerDrops  bool       `json:"peer_drops_when_keepalive_fails,omitempty"`              // the read side notices the loss while the keepalive is closing the transport
+	UnstallMs  int        `json:"peer_reads_again_after_ms,omitempty"`                    // with peer_stops_reading: the peer reads again this long after it closed the stream (0: never)
 	Prior      bool       `json:"after_an_earlier_session_ended_by_disconnect,omitempty"` // the same client had a session before, which the application ended with Disconnect
-	Stalled    bool       `json:"peer_stops_reading,omitempty"`              // the server stops reading (a sender and then the keepalive block in write) and later closes the stream
+	Stalled    bool       `json:"peer_stops_reading,omitempty"`                           // the server stops reading (a sender and then the keepalive block in write) and later closes the stream
 	EndAfterNs int64      `json:"end_after_ns,omitempty"`
 	Ticks      int        `json:"observe_ticks"`
 	LatencyNs  int64      `json:"latency_ns"`
